@@ -13,6 +13,8 @@ pub use dusk_bls12_381::BlsScalar;
 use serde_json::{json, Value};
 
 pub mod gadgets;
+#[macro_use]
+pub mod widths;
 pub mod rows;
 
 pub struct Ctx {
